@@ -551,3 +551,90 @@ func fsUnique(x ssa.Value, at ssa.Instruction, via *ssa.BasicBlock) ssa.Value {
 	}
 	return nil
 }
+
+// CAlt is one way a value can be a constant: the constant and the branch
+// conditions (atoms) under which the value is that constant.
+type CAlt struct {
+	K     *ssa.Const // nil: not a constant on this alternative
+	Conds []Atom
+}
+
+// condAlts enumerates the constants a value can be together with the
+// conditions selecting each: constants; phi edges (guards of the edge);
+// results of a repository function (per return, the function's guards, with
+// atoms on its parameters translated to the caller's arguments). extra are
+// the guards of the instruction using the value.
+func condAlts(v ssa.Value, depth int) []CAlt {
+	norm := func(v ssa.Value, pos bool) Atom {
+		for {
+			if u, ok := v.(*ssa.UnOp); ok && u.Op == token.NOT {
+				v, pos = u.X, !pos
+				continue
+			}
+			return Atom{v, pos}
+		}
+	}
+	v = strip(v)
+	switch x := v.(type) {
+	case *ssa.Const:
+		return []CAlt{{K: x}}
+	case *ssa.Phi:
+		if depth > 4 {
+			return []CAlt{{}}
+		}
+		var out []CAlt
+		for i, e := range x.Edges {
+			pred := x.Block().Preds[i]
+			last := pred.Instrs[len(pred.Instrs)-1]
+			var conds []Atom
+			for _, g := range GuardsOf(last) {
+				conds = append(conds, atomsOf(g))
+			}
+			if iff, ok := last.(*ssa.If); ok && pred.Succs[0] != pred.Succs[1] {
+				conds = append(conds, norm(iff.Cond, pred.Succs[0] == x.Block()))
+			}
+			for _, sub := range condAlts(e, depth+1) {
+				out = append(out, CAlt{K: sub.K, Conds: append(append([]Atom{}, conds...), sub.Conds...)})
+			}
+		}
+		return out
+	case *ssa.Call:
+		sc := staticCallee(x.Common())
+		if sc == nil || !InRepo(sc) || sc.Blocks == nil || sc.Signature.Results().Len() != 1 || depth > 3 {
+			return []CAlt{{}}
+		}
+		var out []CAlt
+		translate := func(a Atom) Atom {
+			if prm, ok := a.V.(*ssa.Parameter); ok && prm.Parent() == sc {
+				for i, q := range sc.Params {
+					if q == prm && i < len(x.Call.Args) {
+						return norm(x.Call.Args[i], a.Pos)
+					}
+				}
+			}
+			return a
+		}
+		allInstrs(sc, func(in ssa.Instruction) {
+			ret, ok := in.(*ssa.Return)
+			if !ok || len(ret.Results) != 1 {
+				return
+			}
+			var conds []Atom
+			for _, g := range GuardsOf(ret) {
+				conds = append(conds, translate(atomsOf(g)))
+			}
+			for _, sub := range condAlts(ret.Results[0], depth+1) {
+				alt := CAlt{K: sub.K, Conds: append([]Atom{}, conds...)}
+				for _, a := range sub.Conds {
+					alt.Conds = append(alt.Conds, translate(a))
+				}
+				out = append(out, alt)
+			}
+		})
+		if len(out) == 0 {
+			return []CAlt{{}}
+		}
+		return out
+	}
+	return []CAlt{{}}
+}
